@@ -108,3 +108,10 @@ Lemma src_contains_rot rec rec' q k : pr_seq rec' = rotr k (pr_seq rec) ->
 Proof.
   intros H. rewrite !CircularRecord_contains_eq, H. f_equal. apply contains_rot. exact letter_eqb_spec.
 Qed.
+
+Lemma src_add_refused (x y : pyrecord) :
+  is_CircularRecord x = true \/ is_CircularRecord y = true -> py_addm x y = Err XTypeError.
+Proof.
+  unfold py_addm, PyAddM_rec, CircularRecord_add, CircularRecord_radd.
+  intros [H|H]; rewrite H; [reflexivity|]. destruct (is_CircularRecord x); reflexivity.
+Qed.
